@@ -69,6 +69,16 @@ fn h_ecc_wrap_unwrap() {
     let t = c.into_tag();
     assert!(persist.encrypted_keys[0].key == expect, "wrapped key = AES-GCM(HKDF-SHA256(X25519(eph, recipient), 'KEY DERIVATION'), nonce 'ECIES NONCE0') of the archive key");
     assert!(persist.encrypted_keys[0].tag[..] == t[..], "wrapped key carries its GCM tag");
+    // ... and so is every further entry: same label, same fixed nonce, the recipient's own DH secret
+    {
+        let wk1e = ref_wrap_key(&ent, pubs[1].as_bytes());
+        let mut c = crate::crypto::aesgcm::verif_aesgcm::model_build(&wk1e, ECIES_NONCE);
+        let mut expect1 = key;
+        c.encrypt(&mut expect1);
+        let t1 = c.into_tag();
+        assert!(persist.encrypted_keys[1].key == expect1, "second recipient's entry = AES-GCM(HKDF-SHA256(X25519(eph, recipient 2), 'KEY DERIVATION'), nonce 'ECIES NONCE0') of the archive key");
+        assert!(persist.encrypted_keys[1].tag[..] == t1[..], "second recipient's entry carries its GCM tag");
+    }
     // IDEAL-MAC ASSUMPTION for the model tag function (which, being linear, has trivial collisions
     // a real GCM tag has only with probability 2^-128): the entry wrapped for recipient 1 does not
     // verify under recipient 2's wrapping key
@@ -157,4 +167,10 @@ fn h_ecc_unwrap_only_verified() {
 
 pub(crate) fn empty_persistent() -> MultiRecipientPersistent {
     MultiRecipientPersistent { public: [0u8; 32], encrypted_keys: Vec::new() }
+}
+pub(crate) fn persist_public(p: &MultiRecipientPersistent) -> [u8; 32] {
+    p.public
+}
+pub(crate) fn persist_count(p: &MultiRecipientPersistent) -> usize {
+    p.encrypted_keys.len()
 }
